@@ -57,9 +57,16 @@ def plan(seed: int, tier: str, n_files: int):
             clock = [rng.choice([0, 1.5, 3600.0]) for _ in range(n_reads)]   # jumps forward between replicas
         else:
             clock = [rng.choice([0, -86400.0, 0.25, -1.0]) for _ in range(n_reads)]  # and backward
-        tags = sorted({t for f in fl for t in f["tags"]} | ({"two_files_interleaved"} if two else set()))
-        jobs.append({"engine": ENGINE, "func": FUNC, "limit_s": 1500,
-                     "args": {"files": [{"name": f["name"], "text": f["text"]} for f in fl], "order": order, "clock": clock}, "tags": tags})
+        tags = {t for f in fl for t in f["tags"]} | ({"two_files_interleaved"} if two else set())
+        args = {"files": [{"name": f["name"], "text": f["text"]} for f in fl], "order": order, "clock": clock}
+        r2 = rng.random()
+        if r2 < 0.25:
+            args["wfilter"] = "error"          # the simulated process turns warnings into errors
+            tags.add("warnings_as_errors")
+        elif r2 < 0.5:
+            args["table_fault_before"] = rng.randrange(0, max(1, len(order) - 2))  # transient I/O error while the special-particle table loads
+            tags.add("table_load_fault")
+        jobs.append({"engine": ENGINE, "func": FUNC, "limit_s": 1500, "args": args, "tags": sorted(tags)})
     return jobs
 
 
@@ -154,7 +161,9 @@ def main(tier: str, seed: int, opts) -> int:
         "counters": stats,
         "lineshape_kinds_compared": sorted(ls_kinds),
         "spin_factor_kinds_compared": sorted(sf_kinds),
-        "fault_kinds_fired": {"clock_jump_between_replicas": stats.get("clock_jumps", 0), "stdout_sink_replaced_between_calls": stats.get("conversions", 0)},
+        "fault_kinds_fired": {"clock_jump_between_replicas": stats.get("clock_jumps", 0), "stdout_sink_replaced_between_calls": stats.get("conversions", 0),
+                              "special_table_load_met_io_error": stats.get("replicas_hit_by_table_load_fault", 0),
+                              "sessions_with_warnings_as_errors": tags_seen.get("warnings_as_errors", 0)},
         "simulated_time": {"clock_reads": stats.get("clock_reads", 0), "clock_jumps": stats.get("clock_jumps", 0)},
         "real_subprocess_conversions_compared": sub_checked,
         "regression_replays_run": n_reg,
